@@ -142,7 +142,10 @@ let gen_history ?(cfgstr : string option) (idx : int) (prof : profile) (oc : out
     | 1 -> Auth (nn 0, bs "PLAIN", [nn 0; nn 117])             (* two parts only *)
     | 2 -> Auth (nn 0, bs "PLAIN", [nn 0; nn 117; nn 0; nn 112; nn 0; nn 113])  (* four parts *)
     | 3 -> Auth (nn 0, bs "PLAIN", [])
-    | _ -> Auth (nn (rnd 2), bs "PLAIN", [nn 0] @ bs (pick ["u1"; "user2"; ""]) @ [nn 0] @ bs (pick ["pw"; ""; "p\001w"])) in
+    | _ ->
+      (* now and then credentials that only this history uses (sessions of one gateway must not mix them up) *)
+      let own = string_of_int (idx mod 10) in
+      Auth (nn (rnd 2), bs "PLAIN", [nn 0] @ bs (pick ["u1"; "user2"; ""; "u" ^ own]) @ [nn 0] @ bs (pick ["pw"; ""; "p\001w"; "pw" ^ own; "pw" ^ own])) in
   let client_publish () =
     let qos = pickw [ (3, 0); (3, 1); (3, 2); (2, 3) ] in
     let tit = pickw [ (5, 0); (3, 1); (3, 2); (1, 3) ] in
@@ -200,6 +203,14 @@ let gen_history ?(cfgstr : string option) (idx : int) (prof : profile) (oc : out
       if not (connected ()) && not pending_connect then
         pickw [ (60, `Connect); (prof.p_preconnect, `PreIllegal); (6, `PubM1); (3, `Disconnect0); (3, `Auth); (2, `WillMsg);
                 (2, `WillTopic); (3, `BrokerStuff); (2, `Adv); (prof.p_malformed, `Malformed) ]
+      else if pending_connect && rnd 100 < 55 then
+        (* the next packet the exchange is waiting for *)
+        (match get_connect !s with
+         | Some ((_, _), CxAuth) -> `GoodAuth
+         | Some ((_, _), CxWillTopic) -> `GoodWillTopic
+         | Some ((_, _), CxWillMsg) -> `WillMsg
+         | Some ((_, _), CxConnack) -> `Connack
+         | None -> `Connack)
       else if pending_connect then
         pickw [ (30, `Connack); (12, `Auth); (12, `WillTopic); (12, `WillMsg); (5, `Connect); (6, `Silence); (4, `PreIllegal);
                 (if connected () then 2 else 0), `Sleep;
@@ -215,6 +226,10 @@ let gen_history ?(cfgstr : string option) (idx : int) (prof : profile) (oc : out
     match choice with
     | `Connect -> emit_or_skip (ev_sn (connect_pkt ()))
     | `Auth -> emit_or_skip (ev_sn (auth_pkt ()))
+    | `GoodAuth ->
+      let own = string_of_int (idx mod 10) in
+      emit_or_skip (ev_sn (Auth (nn 0, bs "PLAIN", [nn 0] @ bs (pick ["u1"; "u" ^ own]) @ [nn 0] @ bs (pick ["pw"; "pw" ^ own; "pw" ^ own]))))
+    | `GoodWillTopic -> emit_or_skip (ev_sn (WillTopic (nn (rnd 3), coin (), bs (pick ["will/t"; "w"]))))
     | `WillTopic ->
       emit_or_skip (ev_sn (if rnd 6 = 0 then WillTopic (nn 0, false, []) else WillTopic (nn (rnd 4), coin (), bs (pick ["will/t"; "w"; "will/+"]))))
     | `WillMsg -> emit_or_skip (ev_sn (WillMsg (if rnd 5 = 0 then [] else bs "bye")))
@@ -293,9 +308,15 @@ let run_multi (seed : int) (groups : int) (k : int) (out : string) =
   seed_rng seed;
   let oc = if out = "-" then stdout else open_out out in
   for g = 0 to groups - 1 do
-    let prof = profiles.(g mod 4) in
-    let cfgstr = draw_cfg prof in
-    for j = 0 to k - 1 do gen_history ~cfgstr (g * k + j) profiles.((g + j) mod 4) oc done
+    if g mod 2 = 0 then begin
+      (* every other group: concurrent connect exchanges on a gateway with authentication and default credentials *)
+      let cfgstr = Printf.sprintf "auth=1 user=%s pass=%s rdelay=%d rcount=%d predef=%s" (hex_of_bytes (bs "gwuser"))
+          (hex_of_bytes (bs "gwpassword")) (pick [300; 1000; 1500]) (pick [0; 1; 2; 3]) (gen_predef ()) in
+      for j = 0 to k - 1 do gen_history ~cfgstr (g * k + j) profiles.(1) oc done end
+    else begin
+      let prof = profiles.(g mod 4) in
+      let cfgstr = draw_cfg prof in
+      for j = 0 to k - 1 do gen_history ~cfgstr (g * k + j) profiles.((g + j) mod 4) oc done end
   done;
   if out <> "-" then close_out oc
 
